@@ -384,6 +384,12 @@ def sample(plan, res):
             "verdict": res["verdict"], "digest": res.get("digest")}
 
 
+def distinct_nontrivial(agg):
+    """Distinct requests observed in at least two different interpreters (the rule of RULE)."""
+    s = (agg["extra"].get("g_summary") or [{}])[0]
+    return int(s.get("requests_seen_in_two_or_more_interpreters", 0))
+
+
 def summarise_extra(agg):
     s = (agg["extra"].get("g_summary") or [{}])[0]
     return dict(s)
